@@ -23,6 +23,7 @@ FLAVOURS = {
     'gcc-asan':   ('g++',     '-std=c++11 -O1 ' + SAN, 'single'),
     'clang-asan-dev': ('clang++', '-std=c++11 -O1 ' + SAN + ' -fno-sanitize=object-size', 'dev'),
     'gcc-O2':     ('g++',     '-std=c++11 -O2', 'single'),
+    'clang-vlog': ('clang++', '-std=c++11 -O0 -DHFSM2_ENABLE_VERBOSE_DEBUG_LOG', 'single'),
     'clang-tsan': ('clang++', '-std=c++11 -O1 -g -fsanitize=thread', 'single'),
     'gcc-tsan':   ('g++',     '-std=c++11 -O1 -g -fsanitize=thread', 'single'),
     'u-clang-asan': ('clang++', '-std=c++17 -O0 ' + SAN + ' -fno-sanitize=object-size', 'single'),
